@@ -14,7 +14,7 @@ func init() {
 	register(&Property{
 		ID:      "C18",
 		Run:     runC18,
-		Explain: "(1) bounded recursion: every call-graph cycle through the SPNEGO client's request function is broken at each recursive call site either by an integer parameter passed strictly increased and tested against a constant bound before the call, or by a container that is appended to on the way and whose length is tested against a constant before the call (the redirect chain); (2) body replay: on both retry paths, when the request has a body, what is re-sent is io.NopCloser over the buffer the first attempt tee'd into, and the 401 response body is drained and closed before the retry; (3) header construction: SetSPNEGOHeader sets Authorization to \"Negotiate \" + base64.StdEncoding of the marshalled token obtained from InitSecContext of a mechanism built for the SPN argument (or the one derived from the request URL), and returns before setting the header on any error of AcquireCred/InitSecContext/Marshal; a challenge is status 401 with WWW-Authenticate: Negotiate; a redirect target loses the Authorization header; (4) the token passes the ticket and session key it was given down to NewAPReq, with the RFC 4121 §4.1.1 authenticator checksum (type 0x8003, 24 bytes, length 16 little-endian at [0:4], flags little-endian at [20:24]).",
+		Explain: "(1) bounded recursion: every call-graph cycle through the SPNEGO client's request function is broken at each recursive call site either by an integer parameter passed strictly increased and tested against a constant bound before the call, or by a container that is appended to on the way and whose length is tested against a constant before the call (the redirect chain); (2) body replay: on both retry paths, when the request has a body, what is re-sent is io.NopCloser over the buffer the first attempt tee'd into, and the 401 response body is drained and closed before the retry; (3) header construction: SetSPNEGOHeader sets Authorization to \"Negotiate \" + base64.StdEncoding of the marshalled token obtained from InitSecContext of a mechanism built for the SPN argument (or the one derived from the request URL), and returns before setting the header on any error of AcquireCred/InitSecContext/Marshal; a challenge is status 401 with WWW-Authenticate: Negotiate; a redirect target loses the Authorization header; (4) the token passes the ticket and session key it was given down to NewAPReq, with the RFC 4121 §4.1.1 authenticator checksum (type 0x8003, 24 bytes, length 16 little-endian at [0:4], flags little-endian at [20:24]). Added: the body is teed on every attempt that has one; the Authorization header is dropped on every path that follows a redirect; the authenticator clock is UTC.",
 		NotDecided: []string{
 			"the token being accepted by an independent acceptor; the body bytes as received (runtime / cryptographic)",
 		},
